@@ -30,6 +30,7 @@ import DSymVerif.Proofs.FundGroupPres
 import DSymVerif.Proofs.FundGroupIso
 import DSymVerif.Proofs.FundGroupTree
 import DSymVerif.Proofs.FundGroupLetters
+import DSymVerif.Proofs.FundGroupSpecMain
 import DSymVerif.Spec.C09
 
 namespace DSymVerif.C09
@@ -273,7 +274,8 @@ theorem spanning_tree_is_spanning_tree (ds : DSymData) (hv : ValidSet ds.dset) (
     (spanningTree ds).length + 1 = ds.size ∧
     ∃ root, 1 ≤ root ∧ root ≤ ds.size ∧
       ∀ x, 1 ≤ x → x ≤ ds.size → TreeReach ds (spanningTree ds) root x := by
-  refine ⟨?_, spanningTree_spanning hv hsize hc⟩
+  obtain ⟨hlen, root, r1, r2, hreach, _, _⟩ := spanningTree_spanning hv hsize hc
+  refine ⟨?_, hlen, root, r1, r2, hreach⟩
   intro it hit
   obtain ⟨hn, _⟩ := spanningTree_itemOk hv it hit
   exact ⟨hn, spanningTree_ok hv it hit hn⟩
@@ -330,5 +332,30 @@ theorem returned_group_is_textbook_group (ds : DSymData) (hs : ValidSym ds) (hdi
 
 example : ValidSym (DSymData.ofSimple ex2) ∧ 1 ≤ (DSymData.ofSimple ex2).dim :=
   ⟨ex2_validSym, by decide⟩
+
+/-! ## 10. the Spec's executable textbook presentation presents the same group -/
+
+/-- `SRel ds` = the relators of `SpecC09.textbook (gOf ds)` — what the driver builds from the
+    symbol's tables: breadth-first spanning tree from chamber 1, pairing relators for `d ≤ s_i d`,
+    one 2-orbit relator per least chamber of the orbit — on generators `1 … size·(dim+1)`.
+    For a connected valid symbol whose breadth-first tree has `size − 1` facets (the Spec's own
+    connectedness test `connectedBfs`, evaluated on every input) it presents `TGroup ds`:
+    (a) 2-orbit relators at other chambers of an orbit are conjugates of the kept one or of its
+    inverse modulo the pairing relators (`grel_base`), (b) two ordered spanning trees give
+    isomorphic groups (`treeIso`: `x(c,a) ↦ q(c)·x(c,a)·q(s_a c)⁻¹` with the tree path products `q`;
+    the two composites are inner automorphisms).  Together with §9 the invariants the Spec
+    computes from its textbook presentation are invariants of the group the model returns. -/
+theorem spec_textbook_presents_TGroup (ds : DSymData) (hs : ValidSym ds) (hdim : 1 ≤ ds.dim)
+    (hsize : 1 ≤ ds.size) (hc : ds.view.isConnected = true)
+    (hbfs : (SpecC09.spanTree (gOf ds)).length + 1 = ds.size) :
+    Nonempty (PresentedGroup (SRel ds) ≃* TGroup ds) ∧
+    ∀ f, fundamentalGroup ds = .ok f → Nonempty (PresentedGroup (SRel ds) ≃* MGroup f) := by
+  refine ⟨⟨specTextbookIso hs hsize hc hbfs⟩, fun f hf => ?_⟩
+  exact ⟨(specTextbookIso hs hsize hc hbfs).trans (presIso hs hdim hf)⟩
+
+example : ValidSym (DSymData.ofSimple ex2) ∧ 1 ≤ (DSymData.ofSimple ex2).dim ∧
+    1 ≤ (DSymData.ofSimple ex2).size ∧ (DSymData.ofSimple ex2).view.isConnected = true ∧
+    (SpecC09.spanTree (gOf (DSymData.ofSimple ex2))).length + 1 = (DSymData.ofSimple ex2).size :=
+  ⟨ex2_validSym, by decide, by decide, by decide +kernel, by decide +kernel⟩
 
 end DSymVerif.C09
